@@ -230,7 +230,10 @@ func VerifC05_dsl_context_variables() {
 		}
 		verifAssert(tr.Transform(types.NewRecordAndContext(rec, &ctx), &out, idc, odc) == nil, "C05/dsl/transform-ok")
 	}
-	verifAssert(tr.Transform(types.NewEndOfStreamMarker(&last), &out, idc, odc) == nil, "C05/dsl/end-ok")
+	// the stream may go on after the last record this verb saw (records dropped upstream, a trailing
+	// empty file): the end block sees the context of the end of the stream
+	final := types.Context{FILENAME: "file-z", FILENUM: last.FILENUM + 1, NR: last.NR + 3, FNR: 0}
+	verifAssert(tr.Transform(types.NewEndOfStreamMarker(&final), &out, idc, odc) == nil, "C05/dsl/end-ok")
 	verifAssert(len(out) == 4, "C05/dsl/two-records-one-emit-and-the-marker")
 	if len(out) != 4 {
 		return
@@ -258,7 +261,7 @@ func VerifC05_dsl_context_variables() {
 	verifAssert(fin != nil && fin.Get("final") != nil, "C05/dsl/end-block-emits")
 	if fin != nil && fin.Get("final") != nil {
 		n, ok := fin.Get("final").GetIntValue()
-		verifAssert(ok && n == nr+1, "C05/dsl/end-block-sees-the-final-NR")
+		verifAssert(ok && n == nr+1+3, "C05/dsl/end-block-sees-the-final-NR")
 	}
 	verifReach("C05/dsl/context/end")
 }
